@@ -15,7 +15,7 @@ SUM_KEYS = ("cases", "judged", "mk_round_trips", "mk_round_trips_first_rule_only
 def run_parsers(chk, tier, sd=None):
     binp = vlib.build_harness("depsrt_mon", "asan", ["depsrt_mon.cpp"], libs=LIBS)
     shards = vlib.NCPU
-    total = 320000 if tier == "quick" else 4000000      # cases; about 1.1 round trips and 1.3 corruptions per case
+    total = 320000 if tier == "quick" else 12000000      # cases; about 1.1 round trips and 1.3 corruptions per case
     per = (total + shards - 1) // shards
     cmds = [[binp, "--seed", str(chk.seed * 1000 + i), "--cases", str(per)] for i in range(shards)]
 
